@@ -6,6 +6,7 @@ CONSTANTS
   Counts = {1, 11, 32}
   Bes = {0, 1}
   NChains = 6
+  Blind = 1
   NSurg = 1
 INIT Init
 NEXT Next
